@@ -451,9 +451,12 @@ fn consume_expr<'i>(
                         }
                     }
                     Rule::insensitive_string => {
-                        let string = unescape(pair.as_str()).expect("incorrect string literal");
+                        // `^` and the string may be separated by whitespace or comments, so the
+                        // contents are taken from the string token, not from a fixed offset.
+                        let literal = pair.clone().into_inner().next().unwrap();
+                        let string = unescape(literal.as_str()).expect("incorrect string literal");
                         ParserNode {
-                            expr: ParserExpr::Insens(string[2..string.len() - 1].to_owned()),
+                            expr: ParserExpr::Insens(string[1..string.len() - 1].to_owned()),
                             span: pair.clone().as_span(),
                         }
                     }
